@@ -3,7 +3,8 @@
 # Applies a seeded change to a scratch worktree of /repo (never /repo itself while builders are
 # active), optionally runs its demonstration (must fail), then runs the property's check against
 # that worktree and reports whether a VIOLATION line was printed. Cleans up.
-P=$1; D=$2; TIER=${3:-quick}
+P=$1; D=$(cd "$2" && pwd); TIER=${3:-quick}
+HERE=$(cd "$(dirname "$0")/.." && pwd)
 WT=/var/tmp/seedtry.$$
 git -C /repo worktree add -q --detach $WT HEAD || exit 2
 trap 'git -C /repo worktree remove --force $WT >/dev/null 2>&1' EXIT
@@ -18,7 +19,7 @@ if [ -f "$D/demo/run.sh" ] && [ -z "$SKIP_DEMO" ]; then
   (cd $WT && GOFLAGS=-mod=mod GOPROXY=off bash .seed-demo/run.sh $WT >/var/tmp/seedtry.$$.demo 2>&1); echo "demo exit with change: $?"
   rm -rf $WT/.seed-demo $WT/verifdemo
 fi
-cd /verif && VERIF_REPO=$WT ./check $P --tier $TIER > /var/tmp/seedtry.$$.log 2>&1; rc=$?
+cd $HERE && VERIF_REPO=$WT ./check $P --tier $TIER > /var/tmp/seedtry.$$.log 2>&1; rc=$?
 grep -E "^VIOLATION|^  key=|^KNOWN-FINDING|^BROKEN" /var/tmp/seedtry.$$.log | head -8
 echo "RESULT $P $D: check exit $rc"
 rm -f /var/tmp/seedtry.$$.log /var/tmp/seedtry.$$.demo
